@@ -18,12 +18,13 @@ namespace sim {
 namespace {
 thread_local BudgetState t_budget;
 thread_local uint64_t t_reads = 0, t_rbytes = 0;
+thread_local int64_t t_live = 0; // bytes allocated minus bytes freed by this thread (heap budgets are per caller thread)
 std::atomic<uint64_t> g_live{0}, g_count{0}, g_fill_seed{0x5eed};
 char g_crash_ctx[512] = "";
 
 void note_site(BudgetState &b) {
     b.armed = false; // no recursion through the allocator seam while we symbolise
-    std::string s = innermost_ezc3d_fn();
+    std::string s = outermost_ezc3d_fn();
     std::snprintf(b.site, sizeof b.site, "%s", s.c_str());
 }
 } // namespace
@@ -35,7 +36,7 @@ void budget_arm(uint64_t S) {
     t_budget.max_reads = 2 * S + 1024;
     t_budget.max_bytes = 4 * S + 65536;
     t_budget.max_heap = 512 * S + (1u << 20);
-    t_budget.heap_base = g_live.load();
+    t_budget.heap_base = static_cast<uint64_t>(t_live > 0 ? t_live : 0);
     t_budget.armed = true;
 }
 BudgetState budget_disarm() {
@@ -48,9 +49,10 @@ uint64_t seam_read_calls() { return t_reads; }
 uint64_t seam_read_bytes() { return t_rbytes; }
 void seam_reset_counters() { t_reads = 0; t_rbytes = 0; }
 
-std::string innermost_ezc3d_fn() {
-    void *frames[64];
-    int n = backtrace(frames, 64);
+static std::string ezc3d_fn(bool outermost) {
+    void *frames[96];
+    int n = backtrace(frames, 96);
+    std::string found = "?";
     for (int i = 0; i < n; ++i) {
         Dl_info info;
         if (!dladdr(frames[i], &info) || !info.dli_sname) continue;
@@ -58,14 +60,20 @@ std::string innermost_ezc3d_fn() {
         char *dem = abi::__cxa_demangle(info.dli_sname, nullptr, nullptr, &status);
         std::string name = (status == 0 && dem) ? dem : info.dli_sname;
         std::free(dem);
-        if (name.compare(0, 5, "sim::") == 0) continue;
-        if (name.find("ezc3d::") == std::string::npos) continue;
+        if (name.compare(0, 7, "ezc3d::") != 0) continue; // a member of the library itself, not a std:: template over its types
         size_t p = name.find('(');
         if (p != std::string::npos) name.resize(p);
-        return name;
+        p = name.find('[');
+        if (p != std::string::npos) name.resize(p);
+        if (!outermost) return name;
+        if (name == "ezc3d::c3d::c3d") break;
+        found = name;
     }
-    return "?";
+    return found;
 }
+std::string innermost_ezc3d_fn() { return ezc3d_fn(false); }
+// the section reader (Header / Parameters / Data constructor ...) the load is in: stable across compilers and inlining
+std::string outermost_ezc3d_fn() { return ezc3d_fn(true); }
 
 void crash_context(const char *ctx) { std::snprintf(g_crash_ctx, sizeof g_crash_ctx, "%s", ctx); }
 
@@ -82,7 +90,7 @@ void crash_handler(int sig) {
     for (int i = 0; i < n; ++i) {
         Dl_info info;
         if (!dladdr(frames[i], &info) || !info.dli_sname) continue;
-        if (std::strstr(info.dli_sname, "5ezc3d")) { fn = info.dli_sname; break; } // mangled names of ezc3d:: contain "5ezc3d"
+        if (std::strncmp(info.dli_sname, "_ZN5ezc3d", 9) == 0 || std::strncmp(info.dli_sname, "_ZNK5ezc3d", 10) == 0) { fn = info.dli_sname; break; } // a member of ezc3d::
     }
     int len = std::snprintf(buf, sizeof buf, "\nCRASH sig=%d fn=%s ctx=%s\n", sig, fn, g_crash_ctx);
     if (len > 0) { ssize_t w = ::write(1, buf, static_cast<size_t>(len)); (void)w; }
@@ -138,7 +146,7 @@ const size_t HDR = 16;
 inline void *sim_alloc(size_t size, bool nothrow) {
     sim::BudgetState &b = sim::budget_state();
     if (b.armed) {
-        uint64_t live = sim::g_live.load();
+        uint64_t live = static_cast<uint64_t>(sim::t_live > 0 ? sim::t_live : 0);
         uint64_t above = live > b.heap_base ? live - b.heap_base : 0;
         if (above + size > b.max_heap) {
             b.tripped = true; b.kind = "heap";
@@ -154,6 +162,7 @@ inline void *sim_alloc(size_t size, bool nothrow) {
     *static_cast<uint64_t *>(raw) = size;
     uint64_t c = sim::g_count.fetch_add(1) + 1;
     sim::g_live.fetch_add(size);
+    sim::t_live += static_cast<int64_t>(size);
     unsigned char fill = static_cast<unsigned char>(sim::mix(sim::g_fill_seed.load(), c) & 0xff);
     void *p = static_cast<char *>(raw) + HDR;
     std::memset(p, fill, size < (1u << 20) ? size : (1u << 20)); // large blocks: only the first MiB (keeps them virtual)
@@ -164,6 +173,7 @@ inline void sim_free(void *p) noexcept {
     void *raw = static_cast<char *>(p) - HDR;
     uint64_t size = *static_cast<uint64_t *>(raw);
     sim::g_live.fetch_sub(size);
+    sim::t_live -= static_cast<int64_t>(size);
     std::free(raw);
 }
 } // namespace
